@@ -128,7 +128,10 @@ Theorem C05_performance_is_mean_accepted_total :
 Proof. exact analyze_performance. Qed.
 Print Assumptions C05_performance_is_mean_accepted_total.
 
-(* error_rate = 1 - mean_i ( sum_{o in expected(i), o listed} p_io / sum_o p_io ).
+(* error_rate = 1 - mean_i ( sum_{o in expected(i), o listed} p_io / sum_o p_io ),
+   the sum running over the SET of expected outputs ([frac_list] sums over
+   [st_dedupe (expected i)], which holds every state of the list exactly once:
+   C05_expected_list_is_used_as_a_set), for EVERY expected list, repeats included.
    The code has NO guard on the row total: a zero row with a listed expected
    output gives nan (= None); a missing key of `expected` is a KeyError. *)
 Theorem C05_error_rate_is_one_minus_expected_fraction :
@@ -283,17 +286,22 @@ Theorem C05_quick_sampler_accepts_vacuum_with_threshold_detectors :
 Proof. exact quick_sampler_vacuum_threshold_accepted. Qed.
 Print Assumptions C05_quick_sampler_accepts_vacuum_with_threshold_detectors.
 
-(* REFUTED on the current tree for `expected` lists with a repeated state: the
-   state is subtracted once per occurrence, so the row error is 1 - 2 p/total
-   instead of one minus the expected fraction 1 - p/total (row [1; 0], listed
-   outputs [x; y], expected [x; x]: -1 instead of 0).  For duplicate-free lists
-   C05_error_rate_is_one_minus_expected_fraction is the property. *)
-Theorem C05_error_rate_duplicate_expected_refuted :
+Theorem C05_expected_list_is_used_as_a_set :
+  forall l : list state, NoDup (st_dedupe l) /\ forall x, In x (st_dedupe l) <-> In x l.
+Proof. exact (fun l => conj (st_dedupe_nodup l) (st_dedupe_in l)). Qed.
+Print Assumptions C05_expected_list_is_used_as_a_set.
+
+(* regression witness for the defect repaired by 23dccaf ([an_row_error_pinned] =
+   the old loop over the list itself): a state listed twice was subtracted twice
+   (row [1; 0], listed outputs [x; y], expected [x; x]: -1 instead of 0); the
+   repaired loop gives the same value as for [x] *)
+Theorem C05_error_rate_duplicate_expected_pinned_refuted :
   forall x y : state, st_eqb x y = false ->
-    an_row_error rops [1; 0]%R [x; y] [x; x] = Some (1 - 1 - 1)%R /\
+    an_row_error_pinned rops [1; 0]%R [x; y] [x; x] = Some (1 - 1 - 1)%R /\
+    an_row_error rops [1; 0]%R [x; y] [x; x] = Some (1 - 1)%R /\
     an_row_error rops [1; 0]%R [x; y] [x] = Some (1 - 1)%R.
-Proof. exact error_rate_duplicate_refuted. Qed.
-Print Assumptions C05_error_rate_duplicate_expected_refuted.
+Proof. exact error_rate_duplicate_pinned_refuted. Qed.
+Print Assumptions C05_error_rate_duplicate_expected_pinned_refuted.
 
 (* ---- the hypotheses are satisfiable ---- *)
 Example C05_herald_ok_nonvacuous : herald_ok 3 [(2, 1%Z); (0, 0%Z)].
